@@ -264,6 +264,11 @@ impl LogInnerManager {
     ) -> anyhow::Result<(u64, u64)> {
         let mut data_cursor = last_index.file_index;
         let msg_count = last_index.log_index - start_index;
+        if count == 0 {
+            // the target is the index entry itself (a cut exactly on an index boundary): without this
+            // the loop below never sees `c == count` and runs on to the end of the log
+            return Ok((data_cursor, msg_count));
+        }
         let mut buffer = vec![0u8; 1024];
         let mut reader = MessageBufReader::new();
         file.seek(SeekFrom::Start(data_cursor)).await?;
